@@ -32,6 +32,9 @@ package impl
 //@   ensures [error-event] completeErr != nil && ret(GetByID, 1) == nil &&
 //@       ret(GetByID, 0).Status() != datatransfer.Failing && ret(GetByID, 0).Status() != datatransfer.Failed ==>
 //@       seq(Channels.Error) && all(Channels.Error, $1 == chid && errIs($2, completeErr))
+//@   ensures [already-failing-is-left-alone] {C09} completeErr != nil && ret(GetByID, 1) == nil &&
+//@       (ret(GetByID, 0).Status() == datatransfer.Failing || ret(GetByID, 0).Status() == datatransfer.Failed) ==> never(Channels.Error) && result == nil
+//@   ensures [error-result] completeErr != nil && calls(Channels.Error) == 1 ==> result == ret(Channels.Error, 0)
 //@   ensures [initiator] completeErr == nil && ret(GetByID, 1) == nil && chid.Initiator == m.peerID ==>
 //@       seq(Channels.FinishTransfer) && called(Channels.FinishTransfer, _, chid) && result == ret(Channels.FinishTransfer, 0)
 //@   ensures [responder-message] completeErr == nil && ret(GetByID, 1) == nil && chid.Initiator != m.peerID ==>
@@ -126,10 +129,18 @@ package impl
 //@       called(Channels.Open, _, chid) && called(Channels.Accept, _, chid) && before(Channels.Accept, manager.recordAcceptedValidationEvents)
 //@   ensures [records-validation] err == nil && result0.Accepted ==> calls(manager.recordAcceptedValidationEvents) == 1 &&
 //@       all(manager.recordAcceptedValidationEvents, $2 == ret(RequestValidator.Validate*, 0))
+//@   ensures [stops-at-first-failure] {C04} (calls(Channels.Open) == 1 && ret(Channels.Open, 0) != nil ==> err == ret(Channels.Open, 0) && last(Channels.Open)) &&
+//@       (calls(Channels.Accept) == 1 && ret(Channels.Accept, 0) != nil ==> err == ret(Channels.Accept, 0) && last(Channels.Accept)) &&
+//@       (calls(manager.recordAcceptedValidationEvents) == 1 && ret(manager.recordAcceptedValidationEvents, 0) != nil ==>
+//@           err == ret(manager.recordAcceptedValidationEvents, 0) && never(TransportOptions.ApplyOptions) && never(DataTransferNetwork.Protect)) &&
+//@       (calls(TransportOptions.ApplyOptions) == 1 && ret(TransportOptions.ApplyOptions, 0) != nil ==> err == ret(TransportOptions.ApplyOptions, 0) && never(DataTransferNetwork.Protect))
+//@   ensures [configured-and-protected] {C16,C09} err == nil && result0.Accepted ==> calls(TransportOptions.ApplyOptions) == 1 && all(TransportOptions.ApplyOptions, $1 == chid && $2 == m.transport) && all(dyn.TransportConfigurer, len($r0) > 0 ==> called(TransportOptions.SetOptions, _, chid, $r0)) &&
+//@       last(DataTransferNetwork.Protect, $1 == chid.Initiator && $2 == chid.String()) && calls(DataTransferNetwork.Protect) == 1
 
 //@ func (*impl.manager).receiveNewRequest {C04}
 //@   acquires {C20} channels.progressCache.lk, graphsync.Transport.dtChannelsLk, graphsync.dtChannel.optionsLk, registry.Registry.registryLk, transportoptions.TransportOptions.optionsLk
 //@   requires incoming != nil
+//@   ensures [replies-unless-unencodable] {C04} result0 != nil || err != nil -- a reply message is produced for every request; only a result that cannot be encoded yields none, and then an error
 //@   ensures [validated] seq(manager.acceptRequest) && called(manager.acceptRequest, _, chid, incoming)
 //@   ensures [reply] result0 != nil ==> result0.IsNew() && !result0.IsRequest() && result0.TransferID() == incoming.TransferID() &&
 //@       result0.Accepted() == (ret(manager.acceptRequest, 1) == nil && ret(manager.acceptRequest, 0).Accepted) &&
@@ -206,10 +217,19 @@ package impl
 //@   ensures [stay-paused] calls(manager.validateRestart) == 1 && calls(GetByID) >= 1 ==> result0 == ret(manager.validateRestart, 0).LeaveRequestPaused(ret(GetByID, 0))
 //@   ensures [restart-first-effect] calls(Channels.Restart) == 1 ==> before(Channels.Restart, manager.recordAcceptedValidationEvents) &&
 //@       before(Channels.Restart, TransportOptions.ApplyOptions) && before(Channels.Restart, DataTransferNetwork.Protect)
+//@   ensures [refusals-do-not-stay-paused] {C11} (m.peerID == chid.Initiator ==> !result0) &&
+//@       (calls(manager.validateRestartRequest) == 1 && ret(manager.validateRestartRequest, 0) != nil ==> !result0)
+//@   ensures [stops-at-first-failure] {C04} (calls(Channels.Restart) == 1 && ret(Channels.Restart, 0) != nil ==> err != nil && last(Channels.Restart)) &&
+//@       (calls(manager.recordAcceptedValidationEvents) == 1 && ret(manager.recordAcceptedValidationEvents, 0) != nil ==>
+//@           err == ret(manager.recordAcceptedValidationEvents, 0) && never(TransportOptions.ApplyOptions) && never(DataTransferNetwork.Protect)) &&
+//@       (calls(TransportOptions.ApplyOptions) == 1 && ret(TransportOptions.ApplyOptions, 0) != nil ==> err == ret(TransportOptions.ApplyOptions, 0) && never(DataTransferNetwork.Protect))
+//@   ensures [configured-and-protected] {C16,C09,C10} err == nil && result1.Accepted ==> calls(Channels.Restart) == 1 && calls(TransportOptions.ApplyOptions) == 1 && all(TransportOptions.ApplyOptions, $1 == chid && $2 == m.transport) && all(dyn.TransportConfigurer, len($r0) > 0 ==> called(TransportOptions.SetOptions, _, chid, $r0)) &&
+//@       last(DataTransferNetwork.Protect, $1 == chid.Initiator && $2 == chid.String()) && calls(DataTransferNetwork.Protect) == 1
 
 //@ func (*impl.manager).receiveRestartRequest {C04,C10}
 //@   acquires {C20} channels.progressCache.lk, graphsync.Transport.dtChannelsLk, graphsync.dtChannel.optionsLk, registry.Registry.registryLk, transportoptions.TransportOptions.optionsLk
 //@   requires incoming != nil
+//@   ensures [replies-unless-unencodable] {C04} result0 != nil || err != nil -- a reply message is produced for every request; only a result that cannot be encoded yields none, and then an error
 //@   ensures [validated] seq(manager.restartRequest) && called(manager.restartRequest, _, chid, incoming)
 //@   ensures [reply] result0 != nil ==> result0.IsRestart() && !result0.IsRequest() && result0.TransferID() == incoming.TransferID() &&
 //@       result0.Accepted() == (ret(manager.restartRequest, 2) == nil && ret(manager.restartRequest, 1).Accepted) &&
@@ -264,6 +284,14 @@ package impl
 //@       $3.(datatransfer.Request).Voucher().0 == channel.Voucher().Voucher)
 //@   ensures [sends-once] err == nil ==> calls(DataTransferNetwork.SendMessage) == 1 && last(DataTransferNetwork.SendMessage)
 //@   ensures [monitored] calls(DataTransferNetwork.SendMessage) == 1 ==> before(Monitor.AddPushChannel, DataTransferNetwork.SendMessage) && called(Monitor.AddPushChannel, _, channel.ChannelID())
+//@   ensures [configured-protected] {C16,C09} all(TransportOptions.ApplyOptions, $1 == channel.ChannelID() && $2 == m.transport) && all(dyn.TransportConfigurer, len($r0) > 0 ==> called(TransportOptions.SetOptions, _, channel.ChannelID(), $r0)) &&
+//@       (calls(DataTransferNetwork.SendMessage) == 1 ==> calls(TransportOptions.ApplyOptions) == 1 && ret(TransportOptions.ApplyOptions, 0) == nil &&
+//@           before(TransportOptions.ApplyOptions, DataTransferNetwork.SendMessage) &&
+//@           called(DataTransferNetwork.Protect, _, channel.OtherPeer(), channel.ChannelID().String()) && before(DataTransferNetwork.Protect, DataTransferNetwork.SendMessage)) &&
+//@       (calls(TransportOptions.ApplyOptions) == 1 && ret(TransportOptions.ApplyOptions, 0) != nil ==> err == ret(TransportOptions.ApplyOptions, 0) && never(DataTransferNetwork.SendMessage))
+//@   ensures [failed-send-stops-monitor] {C14} calls(DataTransferNetwork.SendMessage) == 1 && ret(DataTransferNetwork.SendMessage, 0) != nil ==> err != nil &&
+//@       (ret(Monitor.AddPushChannel, 0) != nil ==> called(monitoredChannel.Shutdown, ret(Monitor.AddPushChannel, 0)))
+//@   ensures [sent-is-success] {C10} calls(DataTransferNetwork.SendMessage) == 1 && ret(DataTransferNetwork.SendMessage, 0) == nil ==> err == nil && never(monitoredChannel.Shutdown)
 
 //@ func (*impl.manager).openPullRestartChannel {C10,C05}
 //@   acquires {C20} channelmonitor.Monitor.lk, channelmonitor.monitoredChannel.shutdownLk, graphsync.Transport.dtChannelsLk, graphsync.dtChannel.lk, graphsync.dtChannel.optionsLk, registry.Registry.registryLk, transportoptions.TransportOptions.optionsLk
@@ -276,6 +304,14 @@ package impl
 //@       $7.(datatransfer.Request).VoucherType() == channel.Voucher().Type && $7.(datatransfer.Request).Voucher().0 == channel.Voucher().Voucher)
 //@   ensures [opens-once] err == nil ==> calls(Transport.OpenChannel) == 1 && last(Transport.OpenChannel)
 //@   ensures [monitored] calls(Transport.OpenChannel) == 1 ==> before(Monitor.AddPullChannel, Transport.OpenChannel) && called(Monitor.AddPullChannel, _, channel.ChannelID())
+//@   ensures [configured-protected] {C16,C09} all(TransportOptions.ApplyOptions, $1 == channel.ChannelID() && $2 == m.transport) && all(dyn.TransportConfigurer, len($r0) > 0 ==> called(TransportOptions.SetOptions, _, channel.ChannelID(), $r0)) &&
+//@       (calls(Transport.OpenChannel) == 1 ==> calls(TransportOptions.ApplyOptions) == 1 && ret(TransportOptions.ApplyOptions, 0) == nil &&
+//@           before(TransportOptions.ApplyOptions, Transport.OpenChannel) &&
+//@           called(DataTransferNetwork.Protect, _, channel.OtherPeer(), channel.ChannelID().String()) && before(DataTransferNetwork.Protect, Transport.OpenChannel)) &&
+//@       (calls(TransportOptions.ApplyOptions) == 1 && ret(TransportOptions.ApplyOptions, 0) != nil ==> err == ret(TransportOptions.ApplyOptions, 0) && never(Transport.OpenChannel))
+//@   ensures [failed-open-stops-monitor] {C14} calls(Transport.OpenChannel) == 1 && ret(Transport.OpenChannel, 0) != nil ==> err != nil &&
+//@       (ret(Monitor.AddPullChannel, 0) != nil ==> called(monitoredChannel.Shutdown, ret(Monitor.AddPullChannel, 0)))
+//@   ensures [opened-is-success] {C10} calls(Transport.OpenChannel) == 1 && ret(Transport.OpenChannel, 0) == nil ==> err == nil && never(monitoredChannel.Shutdown)
 
 //@ func (*impl.manager).restartManagerPeerReceivePush {C10,C04}
 //@   acquires {C20} registry.Registry.registryLk
@@ -285,6 +321,8 @@ package impl
 //@   ensures [asks-initiator] all(DataTransferNetwork.SendMessage, $2 == channel.OtherPeer() && $3.IsRequest() &&
 //@       $3.(datatransfer.Request).IsRestartExistingChannelRequest() && $3.(datatransfer.Request).RestartChannelId().0 == channel.ChannelID())
 //@   ensures [only] only(manager.validateRestart, DataTransferNetwork.SendMessage) && calls(DataTransferNetwork.SendMessage) <= 1
+//@   ensures [asked-or-error] {C10} (calls(DataTransferNetwork.SendMessage) == 1 ==> ((result == nil) == (ret(DataTransferNetwork.SendMessage, 0) == nil))) &&
+//@       (ret(manager.validateRestart, 1) == nil && ret(manager.validateRestart, 0).Accepted ==> calls(DataTransferNetwork.SendMessage) == 1 || result != nil)
 //@ func (*impl.manager).restartManagerPeerReceivePull {C10,C04}
 //@   acquires {C20} registry.Registry.registryLk
 //@   requires channel != nil
@@ -293,6 +331,8 @@ package impl
 //@   ensures [asks-initiator] all(DataTransferNetwork.SendMessage, $2 == channel.OtherPeer() && $3.IsRequest() &&
 //@       $3.(datatransfer.Request).IsRestartExistingChannelRequest() && $3.(datatransfer.Request).RestartChannelId().0 == channel.ChannelID())
 //@   ensures [only] only(manager.validateRestart, DataTransferNetwork.SendMessage) && calls(DataTransferNetwork.SendMessage) <= 1
+//@   ensures [asked-or-error] {C10} (calls(DataTransferNetwork.SendMessage) == 1 ==> ((result == nil) == (ret(DataTransferNetwork.SendMessage, 0) == nil))) &&
+//@       (ret(manager.validateRestart, 1) == nil && ret(manager.validateRestart, 0).Accepted ==> calls(DataTransferNetwork.SendMessage) == 1 || result != nil)
 
 // ---------------------------------------------------------------------------------------------
 // impl.go
@@ -460,6 +500,11 @@ package impl
 //@       (calls(DataTransferNetwork.SendMessage) == 1 ==> ret(DataTransferNetwork.SendMessage, 0) == nil) &&
 //@       (calls(GetByID) >= 1 ==> ret(GetByID, 1) == nil) ==> last(PauseableTransport.PauseChannel)
 //@   ensures [no-close-when-ok] ret(manager.OnRequestReceived, 1) == nil ==> never(Transport.CloseChannel) && never(PauseableTransport.PauseChannel)
+//@   ensures [accepted-push-opens-transport] {C04,C10} ret(manager.OnRequestReceived, 1) != datatransfer.ErrResume && ret(manager.OnRequestReceived, 0) != nil &&
+//@       (calls(GetByID) >= 1 ==> ret(GetByID, 1) == nil) ==>
+//@       (((ret(manager.OnRequestReceived, 0).IsNew() || ret(manager.OnRequestReceived, 0).IsRestart()) && ret(manager.OnRequestReceived, 0).Accepted() && !incoming.IsPull()) ?
+//@           calls(Transport.OpenChannel) == 1 && never(DataTransferNetwork.SendMessage) : calls(DataTransferNetwork.SendMessage) == 1 && never(Transport.OpenChannel))
+//@       -- the reply to an accepted push (new or restart) travels with the graphsync request this side opens; every other reply is sent as a message
 
 //@ func (*impl.receiver).receiveResponse {C05,C11,C03}
 //@   acquires {C20} graphsync.Transport.dtChannelsLk, graphsync.dtChannel.lk, tracing.SpansIndex.spansLk
@@ -484,6 +529,10 @@ package impl
 //@   ensures [stored-channel] all(manager.openPushRestartChannel, $2 == ret(GetByID, 0)) && all(manager.openPullRestartChannel, $2 == ret(GetByID, 0))
 //@   ensures [by-direction] all(manager.openPushRestartChannel, !ret(GetByID, 0).IsPull()) && all(manager.openPullRestartChannel, ret(GetByID, 0).IsPull())
 //@   ensures [only] only(GetByID, manager.openPushRestartChannel, manager.openPullRestartChannel)
+//@   ensures [performed-when-valid] {C10} incoming.RestartChannelId().1 == nil && calls(GetByID) == 1 && ret(GetByID, 1) == nil && ret(GetByID, 0) != nil &&
+//@       ret(GetByID, 0).ChannelID().Initiator == r.manager.peerID && ret(GetByID, 0).OtherPeer() == sender && !channels.IsChannelTerminated(ret(GetByID, 0).Status()) &&
+//@       ret(GetByID, 0).ChannelID().Responder != r.manager.peerID ==>
+//@       calls(manager.openPushRestartChannel) + calls(manager.openPullRestartChannel) == 1 -- a valid request from the counterparty is acted on: the initiator re-issues its request
 
 // ---------------------------------------------------------------------------------------------
 // events.go (data flow) and opening
@@ -527,6 +576,21 @@ package impl
 //@   ensures [subscribe-before-open] notafter(ChannelSubscriptions.Subscribe, Channels.Open) && all(ChannelSubscriptions.Subscribe, $1 == ret(Channels.CreateNew, 0))
 //@   ensures [message] all(DataTransferNetwork.SendMessage, $2 == requestTo && $3 == ret(manager.newRequest, 0)) && never(Transport.OpenChannel)
 //@   ensures [send-failure] calls(DataTransferNetwork.SendMessage) == 1 && ret(DataTransferNetwork.SendMessage, 0) != nil ==> err != nil && called(Channels.Error, _, ret(Channels.CreateNew, 0), _)
+//@   ensures [subscribed-when-asked] {C17} calls(Channels.CreateNew) == 1 && ret(Channels.CreateNew, 1) == nil ==>
+//@       calls(ChannelSubscriptions.Subscribe) == (ret(FromOptions, 0).EventsCb() != nil ? 1 : 0) && all(ChannelSubscriptions.Subscribe, $2 == ret(FromOptions, 0).EventsCb())
+//@   ensures [options-recorded] {C16} calls(Channels.CreateNew) == 1 && ret(Channels.CreateNew, 1) == nil && len(ret(FromOptions, 0).TransportOptions()) > 0 ==>
+//@       called(TransportOptions.SetOptions, _, ret(Channels.CreateNew, 0), ret(FromOptions, 0).TransportOptions())
+//@   ensures [open-refused-stops] {C02} calls(Channels.Open) == 1 && ret(Channels.Open, 0) != nil ==> err == ret(Channels.Open, 0) && last(Channels.Open)
+//@   ensures [configured-before-sending] {C16} all(TransportOptions.ApplyOptions, $1 == ret(Channels.CreateNew, 0) && $2 == m.transport) &&
+//@       (calls(DataTransferNetwork.SendMessage) == 1 ==> calls(TransportOptions.ApplyOptions) == 1 && ret(TransportOptions.ApplyOptions, 0) == nil &&
+//@           before(TransportOptions.ApplyOptions, DataTransferNetwork.SendMessage)) &&
+//@       all(dyn.TransportConfigurer, len($r0) > 0 ==> called(TransportOptions.SetOptions, _, ret(Channels.CreateNew, 0), $r0))
+//@   ensures [protected-and-monitored] {C09,C14} calls(DataTransferNetwork.SendMessage) == 1 ==>
+//@       called(DataTransferNetwork.Protect, _, requestTo, ret(Channels.CreateNew, 0).String()) && before(DataTransferNetwork.Protect, DataTransferNetwork.SendMessage) &&
+//@       calls(Monitor.AddPushChannel) == 1 && all(Monitor.AddPushChannel, $1 == ret(Channels.CreateNew, 0)) && before(Monitor.AddPushChannel, DataTransferNetwork.SendMessage)
+//@   ensures [failed-send-stops-monitor] {C14} calls(DataTransferNetwork.SendMessage) == 1 && ret(DataTransferNetwork.SendMessage, 0) != nil && ret(Monitor.AddPushChannel, 0) != nil ==>
+//@       called(monitoredChannel.Shutdown, ret(Monitor.AddPushChannel, 0))
+//@   ensures [ok] {C18} err == nil ==> calls(DataTransferNetwork.SendMessage) == 1 && ret(DataTransferNetwork.SendMessage, 0) == nil && result0 == ret(Channels.CreateNew, 0)
 
 //@ func (*impl.manager).OpenPullDataChannel {C18,C17,C10}
 //@   acquires {C20} channelmonitor.Monitor.lk, channelmonitor.monitoredChannel.shutdownLk, channelsubscriptions.ChannelSubscriptions.subscriptionsLk, graphsync.Transport.dtChannelsLk, graphsync.dtChannel.lk, graphsync.dtChannel.optionsLk, registry.Registry.registryLk, tracing.SpansIndex.spansLk, transportoptions.TransportOptions.optionsLk
@@ -537,6 +601,19 @@ package impl
 //@   ensures [subscribe-before-open] notafter(ChannelSubscriptions.Subscribe, Channels.Open) && all(ChannelSubscriptions.Subscribe, $1 == ret(Channels.CreateNew, 0))
 //@   ensures [request] all(Transport.OpenChannel, $2 == requestTo && $3 == ret(Channels.CreateNew, 0) && $6 == nil && $7 == ret(manager.newRequest, 0)) && never(DataTransferNetwork.SendMessage)
 //@   ensures [open-failure] calls(Transport.OpenChannel) == 1 && ret(Transport.OpenChannel, 0) != nil ==> err != nil && called(Channels.Error, _, ret(Channels.CreateNew, 0), _)
+//@   ensures [subscribed-when-asked] {C17} calls(Channels.CreateNew) == 1 && ret(Channels.CreateNew, 1) == nil ==>
+//@       calls(ChannelSubscriptions.Subscribe) == (ret(FromOptions, 0).EventsCb() != nil ? 1 : 0) && all(ChannelSubscriptions.Subscribe, $2 == ret(FromOptions, 0).EventsCb())
+//@   ensures [options-recorded] {C16} calls(Channels.CreateNew) == 1 && ret(Channels.CreateNew, 1) == nil && len(ret(FromOptions, 0).TransportOptions()) > 0 ==>
+//@       called(TransportOptions.SetOptions, _, ret(Channels.CreateNew, 0), ret(FromOptions, 0).TransportOptions())
+//@   ensures [open-refused-stops] {C02} calls(Channels.Open) == 1 && ret(Channels.Open, 0) != nil ==> err == ret(Channels.Open, 0) && last(Channels.Open)
+//@   ensures [configured-before-requesting] {C16} all(TransportOptions.ApplyOptions, $1 == ret(Channels.CreateNew, 0) && $2 == m.transport) && all(dyn.TransportConfigurer, len($r0) > 0 ==> called(TransportOptions.SetOptions, _, ret(Channels.CreateNew, 0), $r0)) &&
+//@       (calls(Transport.OpenChannel) == 1 ==> calls(TransportOptions.ApplyOptions) == 1 && ret(TransportOptions.ApplyOptions, 0) == nil && before(TransportOptions.ApplyOptions, Transport.OpenChannel))
+//@   ensures [protected-and-monitored] {C09,C14} calls(Transport.OpenChannel) == 1 ==>
+//@       called(DataTransferNetwork.Protect, _, requestTo, ret(Channels.CreateNew, 0).String()) && before(DataTransferNetwork.Protect, Transport.OpenChannel) &&
+//@       calls(Monitor.AddPullChannel) == 1 && all(Monitor.AddPullChannel, $1 == ret(Channels.CreateNew, 0)) && before(Monitor.AddPullChannel, Transport.OpenChannel)
+//@   ensures [failed-open-stops-monitor] {C14} calls(Transport.OpenChannel) == 1 && ret(Transport.OpenChannel, 0) != nil && ret(Monitor.AddPullChannel, 0) != nil ==>
+//@       called(monitoredChannel.Shutdown, ret(Monitor.AddPullChannel, 0))
+//@   ensures [ok] {C18} err == nil ==> calls(Transport.OpenChannel) == 1 && ret(Transport.OpenChannel, 0) == nil && result0 == ret(Channels.CreateNew, 0)
 
 // ---------------------------------------------------------------------------------------------
 // start-up / readiness (C13)
@@ -615,7 +692,7 @@ package impl
 //@ func (*impl.manager).Stop {C20,C09}
 //@   acquires {C20} graphsync.Transport.dtChannelsLk, graphsync.dtChannel.lk, tracing.SpansIndex.spansLk, transportoptions.TransportOptions.optionsLk
 //@   requires m.channelMonitor != nil && m.spansIndex != nil && m.transportOptions != nil && m.channelSubscriptions != nil && m.channels != nil && m.transport != nil
-//@   ensures [everything-stopped] called(SpansIndex.EndAll) && called(TransportOptions.ClearAll) && called(ChannelSubscriptions.Stop) &&
+//@   ensures [everything-stopped] first(dyn.CancelFunc) && called(SpansIndex.EndAll) && called(TransportOptions.ClearAll) && called(ChannelSubscriptions.Stop) &&
 //@       called(Group.Stop) && last(Transport.Shutdown) && result == ret(Transport.Shutdown, 0)
 
 //@ extern func github.com/hannahhoward/go-pubsub.New
